@@ -545,6 +545,10 @@ func (s *Store) CreateDB(name string) (db *DB, f *os.File, err error) {
 		TraceLog.Printf("[CreateDatabase(%s)]: %s", name, errorKeyValue(err))
 	}()
 
+	if !isValidDBName(name) {
+		return nil, nil, fmt.Errorf("invalid database name: %q", name)
+	}
+
 	s.mu.Lock()
 	defer s.mu.Unlock()
 
@@ -590,6 +594,10 @@ func (s *Store) CreateDB(name string) (db *DB, f *os.File, err error) {
 
 // CreateDBIfNotExists creates an empty database with the given name.
 func (s *Store) CreateDBIfNotExists(name string) (*DB, error) {
+	if !isValidDBName(name) {
+		return nil, fmt.Errorf("invalid database name: %q", name)
+	}
+
 	s.mu.Lock()
 	defer s.mu.Unlock()
 
@@ -622,6 +630,13 @@ func (s *Store) CreateDBIfNotExists(name string) (*DB, error) {
 	storeDBCountMetric.Set(float64(len(s.dbs)))
 
 	return db, nil
+}
+
+// isValidDBName returns true if name can be used as a database name: a single
+// path element. Names arrive from the network (stream frames, API parameters)
+// as well as from the mount and become a directory under the data directory.
+func isValidDBName(name string) bool {
+	return name != "" && name != "." && name != ".." && !strings.ContainsAny(name, "/\x00")
 }
 
 // PosMap returns a map of databases and their transactional position.
